@@ -32,7 +32,6 @@ def check(world, tier):
     lps = S.transfer_loops()
     fi_el = prog.field_index(WINDOW, "elements")
     fi_sz = prog.field_index(WINDOW, "size")
-    fi_ws = prog.field_index(WORKER, "windowsize")
     # ---------------------------------------------------------- a
     wr = window_roots(S)
     a.need(len(wr), 1, "Window created in the send region")
@@ -96,8 +95,7 @@ def check(world, tier):
             c.ob(not bad, "rejected-ack-is-inert", "a rejected (duplicate / stale) ACK %s before the next receive" % ", ".join(bad),
                  sample={"ACK edge": node_str(prog, e[0]), "rejected-ACK path nodes": len(r_inner), "effects": bad})
     # ---------------------------------------------------------- d
-    obs = [o for o in eng.obligations.values() if o.region == S.name and not o.kind.startswith("ghost") and
-           (o.body.endswith("window::Window::remove") or (o.ctx == tf and o.kind == "assert"))]
+    obs = [o for o in S.transfer_obligations() if o.kind in ("assert", "range", "index", "unwrap")]
     d.need(len(obs), 3, "obligations of the acceptance path (distance + 1, remove, counters)")
     for o in obs:
         d.ob(o.proven, ob_key(o), "acceptance guard too weak: %s cannot be shown (%s); e.g. a duplicate ACK with windowsize 65535 or a stale ACK on a short final window"
